@@ -269,7 +269,7 @@ func (c *CheckRun) runLeg(arch string, gen func(*CheckRun) []*Scenario, prefix s
 		switch vr.v.Kind {
 		case "fault":
 			ok = r.Outcome == "panic" || r.Outcome == "crash" || r.Outcome == "hang"
-			if strings.HasPrefix(vr.v.Tag, "layout confusion") && r.Outcome != "ok" && r.Outcome != "" && r.Outcome != "noresult" {
+			if (strings.HasPrefix(vr.v.Tag, "layout confusion") || strings.HasPrefix(vr.v.Tag, "pool double Put")) && r.Outcome != "ok" && r.Outcome != "" && r.Outcome != "noresult" {
 				// reading an object through an incompatible type does not fault natively; any misbehaviour of the
 				// native run with the same inputs (a value that no longer matches, a crash) confirms it
 				ok = true
